@@ -260,7 +260,7 @@ pub fn cut_outcome(c: &CutCase) -> Outcome {
                                 oks.push(m);
                                 if kind == Kind::Rep {
                                     // a reply to a healthy requester must arrive there (and only there)
-                                    let from = oks.last().and_then(|m| m.first()).and_then(|t| t.iter().position(|c| *c == b'-').and_then(|d| std::str::from_utf8(&t[1..d]).ok()).and_then(|x| x.parse::<usize>().ok()));
+                                    let from = oks.last().and_then(|m| m.first()).and_then(|t| t.iter().position(|c| *c == b'-').and_then(|d| t.get(1..d)).and_then(|x| std::str::from_utf8(x).ok()).and_then(|x| x.parse::<usize>().ok()));
                                     let before: Vec<usize> = healthy.iter().map(|(l, _)| l.lib_messages_prefix().map(|x| x.0.len()).unwrap_or(0)).collect();
                                     let reply = vec![format!("rep-{}", oks.len()).into_bytes(), vec![], b"r".to_vec()];
                                     let a = sim.send(s, &reply);
